@@ -1,9 +1,16 @@
 #![no_main]
-use libfuzzer_sys::fuzz_target;
+use libfuzzer_sys::{fuzz_mutator, fuzz_target};
 use mbnverif::props::*;
 
 fuzz_target!(|data: &[u8]| {
     if let Err(replay) = mbnverif::rt::fuzz_one::<c12::C12>("mutated", data) {
         panic!("property violated, replay file: {replay}");
+    }
+});
+
+fuzz_mutator!(|data: &mut [u8], size: usize, max_size: usize, seed: u32| {
+    match mbnverif::rt::mutate_json(data, size, max_size, seed) {
+        Some(n) => n,
+        None => libfuzzer_sys::fuzzer_mutate(data, size, max_size),
     }
 });
